@@ -250,10 +250,68 @@ def gen_logical(root):
     return rel, "engine/src/ast/logical_expr/verif_kani/extracted.rs", "\n".join(out), {"arms": seen}
 
 
+INDEX_FNS = {
+    # fn name -> (signature regex, exact prologue (normalised), parameter list of the lifted arm, return type)
+    "compile_one_with": (
+        r"fn\s+compile_one_with\s*<\s*C\s*:\s*Compiler\s*>\s*\(\s*self\s*,\s*compiler\s*:\s*&mut\s+C\s*,\s*default\s*:\s*bool\s*,\s*comp\s*:\s*impl\s+Compare<C::U>\s*,?\s*\)\s*->\s*CompiledOneExpr<C::U>\s*\{",
+        "letSelf{identifier,indexes,}=self;letindexes=simplify_indexes(indexes);",
+        "compiler: &mut C, default: bool, comp: impl Compare<C::U>, indexes: Box<[FieldIndex]>", "CompiledOneExpr<C::U>"),
+    "compile_vec_with": (
+        r"fn\s+compile_vec_with\s*<\s*C\s*:\s*Compiler\s*>\s*\(\s*self\s*,\s*compiler\s*:\s*&mut\s+C\s*,\s*comp\s*:\s*impl\s+Compare<C::U>\s*,?\s*\)\s*->\s*CompiledVecExpr<C::U>\s*\{",
+        "letSelf{identifier,indexes,}=self;letindexes=simplify_indexes(indexes);",
+        "compiler: &mut C, comp: impl Compare<C::U>, indexes: Box<[FieldIndex]>", "CompiledVecExpr<C::U>"),
+    "compile_iter_with": (
+        r"fn\s+compile_iter_with\s*<\s*C\s*:\s*Compiler\s*>\s*\(\s*self\s*,\s*compiler\s*:\s*&mut\s+C\s*,\s*comp\s*:\s*impl\s+Compare<C::U>\s*,?\s*\)\s*->\s*CompiledVecExpr<C::U>\s*\{",
+        "letSelf{identifier,indexes,}=self;",
+        "compiler: &mut C, comp: impl Compare<C::U>, indexes: Vec<FieldIndex>", "CompiledVecExpr<C::U>"),
+}
+INDEX_ARMS = {
+    "IdentifierExpr::Field(f)": ("field", "f: Field"),
+    "IdentifierExpr::FunctionCallExpr(call)": ("function_call", "call: FunctionCallExpr"),
+}
+
+
+def gen_index(root):
+    """IndexExpr::{compile_one_with, compile_vec_with, compile_iter_with}: each is
+    `let Self {identifier, indexes} = self; [let indexes = simplify_indexes(indexes);] match identifier {..}`.
+    The arms are lifted; dropped: the variant test of `match identifier` and the (exactly
+    checked) prologue, which the obligations re-execute by calling the real `simplify_indexes`."""
+    rel = "engine/src/ast/index_expr.rs"
+    src = open(os.path.join(root, rel), encoding="utf-8").read()
+    out = [HEADER.format(src=rel, what="IndexExpr::{compile_one_with, compile_vec_with, compile_iter_with}", scrutinee="identifier")]
+    out.append("use crate::ast::function_expr::FunctionCallExpr;\nuse crate::scheme::Field;\n")
+    seen = []
+    for fname, (sig_re, prologue_norm, params, ret) in INDEX_FNS.items():
+        sig, body = find_fn_in_impl(src, r"(?m)^impl\s+IndexExpr\s*\{", sig_re)
+        mi = re.search(r"match\s+identifier\s*\{", body)
+        if not mi:
+            raise LostAnchor(f"`match identifier {{` not found in IndexExpr::{fname}")
+        if norm(body[:mi.start()]) != prologue_norm:
+            raise LostAnchor(f"prologue of IndexExpr::{fname} changed: {body[:mi.start()].strip()!r}")
+        mopen = body.index("{", mi.end() - 1)
+        mclose = scan_to_matching_brace(body, mopen)
+        if body[mclose + 1:].strip():
+            raise LostAnchor(f"statements after `match identifier` in IndexExpr::{fname}")
+        names = []
+        for pat, arm, is_block in split_arms(body[mopen + 1:mclose]):
+            key = norm(pat)
+            if key not in INDEX_ARMS:
+                raise LostAnchor(f"unknown arm pattern in IndexExpr::{fname}: {pat!r}")
+            name, bind = INDEX_ARMS[key]
+            names.append(name)
+            text = arm if is_block else "{\n    " + arm + "\n}"
+            pat1 = " ".join(pat.split())
+            out.append(f"/// `IndexExpr::{fname}`, arm `{pat1} =>`\npub(crate) fn {fname}__arm_{name}<C: Compiler>({params}, {bind}) -> {ret} {text}\n")
+        if sorted(names) != ["field", "function_call"]:
+            raise LostAnchor(f"arms of IndexExpr::{fname} changed: {names}")
+        seen.append(fname)
+    return rel, "engine/src/ast/index_expr/verif_kani/extracted.rs", "\n".join(out), {"functions": seen}
+
+
 def generate(root):
     """Write both extracted modules under root; returns info for the evidence file."""
     info = {}
-    for gen in (gen_comparison, gen_logical):
+    for gen in (gen_comparison, gen_logical, gen_index):
         rel, dest, text, meta = gen(root)
         os.makedirs(os.path.dirname(os.path.join(root, dest)), exist_ok=True)
         with open(os.path.join(root, dest), "w") as f:
